@@ -5,6 +5,7 @@
 package h_dpmgr
 
 import (
+	"github.com/projectcalico/api/pkg/lib/numorstring"
 	"fmt"
 	"net"
 	"net/netip"
@@ -29,6 +30,9 @@ import (
 )
 
 const localNode = "node-l"
+
+// c43Shape: how each remote node's address is currently stated in its Node resource (see sendNode).
+var c43Shape = map[string]int{}
 
 var remoteNodes = []string{"node-a", "node-b", "node-c"}
 
@@ -152,7 +156,22 @@ func (d *routeDP) sendNode(name, addr string, mask int) {
 		return
 	}
 	n := &internalapi.Node{ObjectMeta: metav1.ObjectMeta{Name: name}}
-	n.Spec.BGP = &internalapi.NodeBGPSpec{IPv4Address: fmt.Sprintf("%s/%d", addr, mask)}
+	// The same host address can be stated in several legal shapes (remote nodes only: the local node's subnet
+	// comes from its BGP address): BGP address; BGP spec without an address (AS number or tunnel address only)
+	// plus an InternalIP / ExternalIP; no BGP spec at all plus an InternalIP.
+	switch c43Shape[name] {
+	case 1:
+		as := numorstring.ASNumber(64512)
+		n.Spec.BGP = &internalapi.NodeBGPSpec{ASNumber: &as}
+		n.Spec.Addresses = []internalapi.NodeAddress{{Address: addr, Type: internalapi.InternalIP}}
+	case 2:
+		n.Spec.Addresses = []internalapi.NodeAddress{{Address: addr, Type: internalapi.InternalIP}}
+	case 3:
+		n.Spec.BGP = &internalapi.NodeBGPSpec{IPv4IPIPTunnelAddr: "10.255.0.1"}
+		n.Spec.Addresses = []internalapi.NodeAddress{{Address: addr, Type: internalapi.ExternalIP}}
+	default:
+		n.Spec.BGP = &internalapi.NodeBGPSpec{IPv4Address: fmt.Sprintf("%s/%d", addr, mask)}
+	}
 	d.res.OnResourceUpdate(api.Update{KVPair: model.KVPair{Key: key, Value: n}, UpdateType: api.UpdateTypeKVUpdated})
 }
 
@@ -473,6 +492,12 @@ func (s *rsim) deliverNode(n string) {
 	mask := 24
 	if n == localNode {
 		mask = s.m.localMask
+	}
+	if n != localNode {
+		c43Shape[n] = s.r.Src.Weighted([]int{5, 2, 2, 1}, "node_shape")
+		if c43Shape[n] != 0 {
+			s.r.Probe("node_address_not_in_bgp_spec")
+		}
 	}
 	for _, k := range s.r.Src.Perm(3, "node_msg_order") {
 		switch k {
